@@ -9,7 +9,7 @@ RULE = ('every operation of a history is executed on the real Mesh and, in lock-
         '(geometry and levels) must equal the model and the model-free invariants must hold (refinement tree '
         'partitions every parent at the float midpoint, leaf collection == childless nodes, exact area, unique '
         'indices, unique vertex coordinates, gmsh() == leaves). Exhaustive part: all bisection sequences to the '
-        'depth bound from 16 small initial meshes, states deduplicated by refinement-tree signature; a case is one '
+        'depth bound from 18 small initial meshes, states deduplicated by refinement-tree signature; a case is one '
         'checked transition, distinct = distinct (initial mesh, tree signature) states plus distinct random histories')
 RULE += ' ' + 'Also three chains of 1060 bisections towards t = 0 / x = 0 (leaf sizes down to 2^-1060; exact-comparison oracle: area, <= 2 neighbours per edge, no exception).'
 ASSUMPTIONS = [
